@@ -42,24 +42,41 @@ Example c20_spills : length (tabs (run 24 (map Z.of_nat (seq 0 500)))) = 4%nat.
 Proof. vm_compute. reflexivity. Qed.
 
 (* ---- asynchronous appender: writer loop over an abstract FIFO (queue order is property C01) ----
-   q = the entries pushed before close()'s stop marker, in queue order; `batches` = ANY way the queue
-   hands them to the writer (any batch sizes, empty polls included), possibly with later items behind
-   the marker.  Each file receives exactly the scatter lists of its entries, once, in queue order
-   (hence each thread's entries in the order it wrote them, and unmixed: an entry's scatter list is
-   contiguous in the stream), every page of every such entry is returned, and the writer stops. *)
-Theorem c20_async_file_stream_exact : forall q rest batches f,
-  concat batches = map Entry q ++ Stop :: rest ->
-  file_stream (writer w0 batches) f = flat_map (fun e => if Nat.eqb (efile e) f then eiov e else []) q.
+   q = the entries pushed before close()'s stop marker, in queue order; `rounds` = ANY way the queue
+   hands them to the writer (any batch sizes, empty polls included, possibly later items behind the
+   marker), each round with ANY set of file objects that report a usable descriptor in it.
+   If every file object always has a descriptor, each file receives exactly the scatter lists of its
+   entries, once, in queue order (hence each thread's entries in the order it wrote them, and unmixed:
+   an entry's scatter list is contiguous in the stream).  With files that are sometimes unavailable, a
+   file receives exactly the entries scanned in the rounds in which it had a descriptor (whole entries,
+   in order, nothing else).  In every case every page of every entry is returned, and the writer stops. *)
+Theorem c20_async_file_stream_exact : forall q rest rounds f,
+  concat (map fst rounds) = map Entry q ++ Stop :: rest ->
+  Forall (fun r => forall g, snd r g = true) rounds ->
+  file_stream (writer w0 rounds) f = flat_map (fun e => if Nat.eqb (efile e) f then eiov e else []) q.
 Proof. exact lga_file_stream. Qed.
 Print Assumptions c20_async_file_stream_exact.
 
-Theorem c20_async_pages_returned : forall q rest batches,
-  concat batches = map Entry q ++ Stop :: rest ->
-  Permutation (returned (writer w0 batches)) (flat_map (fun e => map fst (eiov e)) q).
+Theorem c20_async_file_stream_unavailable_files : forall q rest rounds f,
+  concat (map fst rounds) = map Entry q ++ Stop :: rest ->
+  file_stream (writer w0 rounds) f = delivered f rounds.
+Proof. exact lga_file_stream_any. Qed.
+Print Assumptions c20_async_file_stream_unavailable_files.
+
+Theorem c20_async_pages_returned : forall q rest rounds,
+  concat (map fst rounds) = map Entry q ++ Stop :: rest ->
+  Permutation (returned (writer w0 rounds)) (flat_map (fun e => map fst (eiov e)) q).
 Proof. exact lga_pages_returned. Qed.
 Print Assumptions c20_async_pages_returned.
 
-Theorem c20_async_writer_stops : forall q rest batches,
-  concat batches = map Entry q ++ Stop :: rest -> stopped (writer w0 batches) = true.
+Theorem c20_async_writer_stops : forall q rest rounds,
+  concat (map fst rounds) = map Entry q ++ Stop :: rest -> stopped (writer w0 rounds) = true.
 Proof. exact lga_stops. Qed.
 Print Assumptions c20_async_writer_stops.
+
+(* non-vacuity: a run in which a file object has no descriptor while its entry is flushed *)
+Example c20_async_unavailable_example :
+  let e := {| eid := 1; efile := 0%nat; eiov := [(10, 4); (11, 2)] |} in
+  let rounds := [([Entry e], fun _ : nat => false); ([Stop], fun _ : nat => true)] in
+  file_stream (writer w0 rounds) 0 = [] /\ returned (writer w0 rounds) = [10; 11].
+Proof. vm_compute. split; reflexivity. Qed.
